@@ -29,6 +29,8 @@ pub struct Scenario {
     pub cons_toml: String,
     pub cons_lib: String,
     pub descr: Value,
+    /// a second git dependency of the consumer (its own origin repository): (pinned commit, files)
+    pub second: Option<(String, BTreeMap<String, Vec<u8>>)>,
 }
 
 fn git(dir: &Path, home: &Path, args: &[&str]) -> String {
@@ -164,9 +166,34 @@ pub fn make_scenario(base: &Path, seed: u64, idx: usize) -> Scenario {
         git(&origin, &dir, &["commit", "-q", "-m", "newer"]);
     }
     let url = format!("file://{}", origin.display());
-    let cons_toml = format!(
+    let mut cons_toml = format!(
         "[project]\nauthors = [\"sim\"]\nentry = \"lib.sw\"\nlicense = \"Apache-2.0\"\nname = \"cons\"\nimplicit-std = false\n\n[dependencies]\ndeplib = {{ git = \"{url}\", {refkind} = \"{refval}\" }}\n"
     );
+    // a third of the larger scenarios have a second git dependency from another repository: a crash can then
+    // fall between the two fetches, or inside the second one while the first checkout is complete
+    let mut second = None;
+    if !small && (idx % 3 == 2 || rng.chance(1, 6)) {
+        let origin2 = dir.join("origin2");
+        let mut files2: BTreeMap<String, Vec<u8>> = BTreeMap::new();
+        files2.insert("Forc.toml".into(), b"[project]\nauthors = [\"sim\"]\nentry = \"lib.sw\"\nlicense = \"Apache-2.0\"\nname = \"otherlib\"\nimplicit-std = false\n".to_vec());
+        let mut l2 = String::from("library;\n\npub fn eight() -> u64 {\n    8\n}\n");
+        if rng.chance(1, 2) {
+            l2.push_str("\n/*\n");
+            l2.push_str(&String::from_utf8(filler(&mut rng, 20_000, true)).unwrap());
+            l2.push_str("\n*/\n");
+        }
+        files2.insert("src/lib.sw".into(), l2.into_bytes());
+        files2.insert("NOTES.txt".into(), filler(&mut rng, 5000, true));
+        for (rel, bytes) in &files2 {
+            write_file(&origin2.join(rel), bytes);
+        }
+        git(&origin2, &dir, &["init", "-q", "-b", "main", "."]);
+        git(&origin2, &dir, &["add", "-A"]);
+        git(&origin2, &dir, &["commit", "-q", "-m", "pinned2"]);
+        let commit2 = git(&origin2, &dir, &["rev-parse", "HEAD"]);
+        cons_toml.push_str(&format!("otherlib = {{ git = \"file://{}\", rev = \"{commit2}\" }}\n", origin2.display()));
+        second = Some((commit2, files2));
+    }
     let mut cons_lib = String::from("library;\n\nuse deplib::seven;\n");
     for m in &mods {
         cons_lib.push_str(&format!("use deplib::{m}::f_{m};\n"));
@@ -178,10 +205,14 @@ pub fn make_scenario(base: &Path, seed: u64, idx: usize) -> Scenario {
     if pad > 0 {
         expr = format!("__add({expr}, deplib::after_padding())");
     }
+    if second.is_some() {
+        cons_lib.push_str("use otherlib::eight;\n");
+        expr = format!("__add({expr}, eight())");
+    }
     cons_lib.push_str(&format!("\npub fn total() -> u64 {{\n    {expr}\n}}\n"));
     let descr = json!({"scenario_seed": seed, "scenario_idx": idx, "files": files.iter().map(|(k, v)| json!([k, v.len()])).collect::<Vec<_>>(),
-        "reference": format!("{refkind}={refval}"), "commit": commit, "package_subdir": subdir, "special_files": extra_descr});
-    Scenario { seed, idx, dir, origin, commit, refkind, refval, subdir, reference: files, cons_toml, cons_lib, descr }
+        "reference": format!("{refkind}={refval}"), "commit": commit, "package_subdir": subdir, "special_files": extra_descr, "second_dependency": second.as_ref().map(|x| x.0.clone())});
+    Scenario { seed, idx, dir, origin, commit, refkind, refval, subdir, reference: files, cons_toml, cons_lib, descr, second }
 }
 
 #[derive(Clone, Debug)]
@@ -264,16 +295,28 @@ fn index_state(scn: &Scenario, home: &Path) -> &'static str {
     }
 }
 
-/// R1/R3 over the state a successful run leaves behind.
+/// R1/R3 over the state a successful run leaves behind (every git dependency of the consumer).
 fn judge_tree(scn: &Scenario, home: &Path, cons: &Path) -> Option<(String, String)> {
+    if let Some(v) = judge_one(&scn.commit, &scn.reference, home, cons) {
+        return Some(v);
+    }
+    if let Some((c2, f2)) = &scn.second {
+        if let Some((clause, d)) = judge_one(c2, f2, home, cons) {
+            return Some((clause, format!("second dependency: {d}")));
+        }
+    }
+    None
+}
+
+fn judge_one(commit: &str, reference: &BTreeMap<String, Vec<u8>>, home: &Path, cons: &Path) -> Option<(String, String)> {
     let dirs = checkout_dirs(home);
-    let want = dirs.iter().find(|d| d.file_name().map(|n| n.to_string_lossy() == scn.commit.as_str()).unwrap_or(false));
+    let want = dirs.iter().find(|d| d.file_name().map(|n| n.to_string_lossy() == commit).unwrap_or(false));
     let Some(dir) = want else {
         return Some(("R1".into(), format!("build succeeded but no checkout directory of the pinned commit exists; checkouts={dirs:?}")));
     };
     let tree = read_tree(dir);
     let mut problems = vec![];
-    for (rel, bytes) in &scn.reference {
+    for (rel, bytes) in reference {
         match tree.get(rel) {
             None => problems.push(format!("missing {rel}")),
             Some(b) if b != bytes => {
@@ -294,7 +337,7 @@ fn judge_tree(scn: &Scenario, home: &Path, cons: &Path) -> Option<(String, Strin
         if rel.ends_with('/') || rel == ".forc_index" {
             continue;
         }
-        if !scn.reference.contains_key(rel) {
+        if !reference.contains_key(rel) {
             problems.push(format!("unexpected file {rel}"));
         }
     }
@@ -303,7 +346,7 @@ fn judge_tree(scn: &Scenario, home: &Path, cons: &Path) -> Option<(String, Strin
         return Some(("R1".into(), format!("a build succeeded over a checkout that differs from the pinned commit: {}", problems.join("; "))));
     }
     let lock = std::fs::read_to_string(cons.join("Forc.lock")).unwrap_or_default();
-    if !lock.contains(&scn.commit) {
+    if !lock.contains(commit) {
         return Some(("R3".into(), "Forc.lock of the successful build does not pin the reference commit".into()));
     }
     None
